@@ -9,6 +9,7 @@ package goframe
 // s.ServeHTTP with an httptest recorder, like the adapter's own tests do.
 
 import (
+	"strings"
 	"fmt"
 	"net/http"
 	"net/http/httptest"
@@ -116,6 +117,10 @@ type c19Case struct {
 	FallbackAvailable bool `json:"fallback_available"`
 	// order of slot callbacks and handler / fallback calls for the resource, e.g. "passed,handler,completed"
 	Seq string `json:"seq"`
+	// HTTP drivers: the response body, and (when BodyChecked) the body the configured fallback writes
+	Body         string `json:"body"`
+	FallbackBody string `json:"fallback_body"`
+	BodyChecked  bool   `json:"body_checked"`
 	// request made earlier on the same resource ("" = none): thorough tier, two-request histories
 	History string `json:"history"`
 	Notes                 string `json:"notes,omitempty"`
@@ -405,6 +410,7 @@ func TestVerifC19(t *testing.T) {
 		r := httptest.NewRequest(http.MethodGet, gc.path, nil)
 		c.EscapedPanic = c19Guard(func() { s.ServeHTTP(w, r) })
 		c.Response = strconv.Itoa(w.Code)
+	c.Body, c.FallbackBody, c.BodyChecked = strings.TrimSpace(w.Body.String()), "c19 fallback", true
 		c.DefaultRejectionSeen = w.Code == http.StatusTooManyRequests
 		c19Finish(t, c)
 	}
